@@ -17,9 +17,13 @@ git apply "$SD/patch.diff" || { echo "patch does not apply"; exit 2; }
 git checkout -q -- .
 find "$WT" -name __pycache__ -type d -exec rm -rf {} + 2>/dev/null
 cp "$SD/patch.diff" "$OUT/patch.diff"; cp "$SD/demo.py" "$OUT/demo.py"; cp "$SD/notes.md" "$OUT/notes.md" 2>/dev/null
-git -C /repo apply "$SD/patch.diff" || { echo "patch does not apply to /repo"; exit 2; }
-cd /verif && ./check "$PROP" --tier quick --no-evidence > "$OUT/check_quick.log" 2>&1; RC_CHECK=$?
-git -C /repo checkout -q -- .
+# The check is run against a scratch copy of /repo's working tree with the patch applied (VERIF_REPO), so that
+# background audits reading /repo itself are not disturbed; `git -C /repo apply` + checkout is equivalent.
+git -C /repo apply --check "$SD/patch.diff" || { echo "patch does not apply to /repo"; exit 2; }
+SCR=/tmp/verif-seedcheck-$NAME; /verif/tools/mkscratch.sh "$SCR" >/dev/null
+(cd "$SCR" && patch -p1 -s -i "$SD/patch.diff") || { echo "patch does not apply to scratch"; exit 2; }
+cd /verif && VERIF_REPO="$SCR" VERIF_REPLAY_DIR="$SCR/replays" ./check "$PROP" --tier quick --no-evidence > "$OUT/check_quick.log" 2>&1; RC_CHECK=$?
+rm -rf "$SCR"
 echo "seed=$NAME prop=$PROP demo_original_rc=$RC_ORIG demo_patched_rc=$RC_PATCH tests_rc=$RC_TESTS check_rc=$RC_CHECK"
 tail -3 "$OUT/pytest_patched.log" | head -2
 grep -m3 -A1 VIOLATION "$OUT/check_quick.log" | cut -c1-300
